@@ -207,6 +207,9 @@ func init() {
 				}
 			}
 			out = append(out, c16Scope(enum.Eunit, 4, 4, 3), c16Scope(enum.Ean, 4, 4, 3))
+			for n := 4; n <= 5; n++ {
+				out = append(out, c16Scope(enum.EbigOdd, 3, n, n-2)) // differences near 2^28 with many significant bits
+			}
 			if tier == "thorough" {
 				out = append(out, c16Scope(enum.Eunit, 4, 5, 4), c16Scope(enum.Eax, 4, 5, 4), c16Scope(enum.Esh, 3, 6, 4), c16Scope(enum.Ean, 3, 7, 5))
 			}
